@@ -14,6 +14,7 @@ from harness.refs import ranges as ref
 
 LEVEL = "exploration"
 RULES = {
+    "atheris": "thorough tier: Atheris/libFuzzer coverage-guided campaign; bytes are decoded into the same structured case and judged by the same oracle inside the target (half of the jobs start from an empty corpus, half from two small valid inputs)",
     "exh": "exhaustive: sizes 0..7 x every range set of 1..k specs (first-last, first-, -suffix over 0..8), "
     "joined with ',' and with ' , '; non-trivial = two specs overlap/touch/nest/are out of order, or a spec "
     "sits exactly on a rejection edge (first=size, first=last+1, suffix in {0,size,size+1})",
@@ -239,6 +240,19 @@ def text_case(draw):
     return {"h": h, "n": n}
 
 
+
+def oracle_atheris(case) -> Result:
+    """Replay / triage oracle for inputs found by the Atheris campaign: decode the bytes like the fuzz target does."""
+    from fuzz import targets
+
+    inner = targets.CASES["C03"](case["data"])
+    res = oracle(inner)
+    res.label("atheris")
+    return res
+
+
+SUBS["atheris"] = oracle_atheris
+
 def run(rec, only=None):
     quick = rec.tier == "quick"
     if quick:
@@ -250,3 +264,8 @@ def run(rec, only=None):
     core.drive_hypothesis(rec, "text", text_case(), oracle, 2000 if quick else 40000, seed_offset=1)
     rec.exhaustive["rand"] = False
     rec.exhaustive["text"] = False
+    if not quick:
+        # coverage-guided second engine (Atheris / libFuzzer), same oracle inside the target
+        from fuzz import driver
+
+        driver.campaign(rec, "C03", oracle_atheris, runs=300000, seeds=[b'\x05\x02\x00\x01\x04\x00\x00', b'\x02\x00'], max_total_time=240, jobs=4)
